@@ -58,6 +58,23 @@ def exEvLine : Ex.Event → String
   | .msg t p => s!"msg {toHex t} {p.length} {fnv64 p}"
   | .err e => s!"err {MuduoVerif.Gen.ExCodec.errorCodeToString e}"
 
+/-- the retained messages of one `onMessage` call (harness: printed from the kept `shared_ptr`s after the call has
+returned): `kept <k> obj=<object, numbered by first appearance in this call> <len> <fnv64>` of the payload the object
+holds now (`changed ..` when that is not the payload it was delivered with), then whether the pointers are distinct -/
+def keptLines (evs : List Event) : List String :=
+  let held := heldAfter evs
+  let dl := delivered evs
+  let objs := held.map (·.1)
+  let firsts := objs.eraseDups
+  let one (k : Nat) (e : Nat × Option Bytes) : String :=
+    let same := dl[k]? == e.2 && e.2.isSome
+    let what := match e.2 with
+      | some p => s!"{p.length} {fnv64 p}"
+      | none => "? ?"
+    s!"kept {k} obj={firsts.idxOf e.1} {if same then "" else "changed "}{what}"
+  (held.zipIdx.map (fun x => one x.2 x.1)) ++
+    [s!"distinct {if firsts.length == objs.length then 1 else 0} n={objs.length}"]
+
 def stLine (d : Dec Unit) : String := s!"st left={d.buf.length} dead={if d.dead then 1 else 0}"
 
 def exec (s0 : St) (ws : List String) : St × List String :=
@@ -85,7 +102,7 @@ def exec (s0 : St) (ws : List String) : St × List String :=
     match parseBytes x, s.mode with
     | some d, .lite =>
       let (dec, evs) := feed (cfgOf s) s.dec d
-      ({ s with dec := dec }, evs.map evLine ++ [stLine dec])
+      ({ s with dec := dec }, evs.map evLine ++ keptLines evs ++ [stLine dec])
     | some d, .ex =>
       let (dec, evs) := Ex.feed (exCfgOf s) s.dec d
       ({ s with dec := dec }, evs.map exEvLine ++ [stLine dec])
@@ -96,7 +113,7 @@ def exec (s0 : St) (ws : List String) : St × List String :=
     | .lite =>
       let r := onMessage (cfgOf s) s.dec.buf
       let dec : Dec Unit := { s := (), buf := r.rest, dead := s.dec.dead || r.dead }
-      ({ s with dec := dec }, r.evs.map evLine ++ [stLine dec])
+      ({ s with dec := dec }, r.evs.map evLine ++ keptLines r.evs ++ [stLine dec])
     | .ex =>
       let r := drain (Ex.step (exCfgOf s)) () s.dec.buf
       let dec : Dec Unit := { s := (), buf := r.rest, dead := s.dec.dead || r.dead }
